@@ -107,11 +107,15 @@ pub fn run(args: &Args) -> Report {
         let ka = rng.below(5);
         let alpha = special(&mut rng, ka);
         let total_len: u64 = pi.main_page.len() as u64 + pi.continuous_page_headers.iter().map(|h| vcommon::fu64(&h.size).unwrap()).sum::<u64>();
-        let size: u64 = match rng.below(5) {
-            0 => total_len,
-            1 => total_len + 1,
-            2 => 1 << 30,
-            _ => total_len + rng.below(1 << 20),
+        // column sizes from the exact length up to the 128-bit range the layouts admit
+        let size: BigUint = match rng.below(8) {
+            0 => BigUint::from(total_len),
+            1 => BigUint::from(total_len + 1),
+            2 => BigUint::from(1u64 << 30),
+            3 => (BigUint::from(1u8) << 64) + BigUint::from(rng.below(1 << 20)),
+            4 => (BigUint::from(1u8) << 100) + BigUint::from(rng.next()),
+            5 => (BigUint::from(1u8) << 127) - BigUint::from(rng.below(1000)),
+            _ => BigUint::from(total_len + rng.below(1 << 20)),
         };
         // naive: z^size / ( prod_cells (z - (a + alpha v)) * prod_headers prod * pad^(size - len) )
         let mut den = Felt::ONE;
@@ -122,23 +126,25 @@ pub fn run(args: &Args) -> Report {
             den *= h.prod;
         }
         let pad = z - (pi.padding_addr + alpha * pi.padding_value);
-        den *= pow_big(pad, &BigUint::from(size - total_len));
+        den *= pow_big(pad, &(&size - BigUint::from(total_len)));
         if den == Felt::ZERO {
             rep.inc("memory.degenerate_skipped");
             return;
         }
-        let want = pow_big(z, &BigUint::from(size)) * inv(den);
-        let got = catch(|| pi.get_public_memory_product_ratio(z, alpha, Felt::from(size)));
+        let want = pow_big(z, &size) * inv(den);
+        let size_f = felt_from_big(&size);
+        let got = catch(|| pi.get_public_memory_product_ratio(z, alpha, size_f));
+        rep.inc(if size.bits() > 64 { "memory.column_size_above_2^64" } else { "memory.column_size_up_to_2^64" });
         rep.case(&format!("mem|{label}|{}|{}|{size}", hex(&z), hex(&alpha)), pi.main_page.len() >= 2);
         rep.inc(if i < n_real { "memory.real_public_memories" } else { "memory.random_public_memories" });
-        let replay = json!({"public_memory": label, "cells": pi.main_page.len(), "pages": pi.continuous_page_headers.len(), "z": hex(&z), "alpha": hex(&alpha), "column_size": size});
+        let replay = json!({"public_memory": label, "cells": pi.main_page.len(), "pages": pi.continuous_page_headers.len(), "z": hex(&z), "alpha": hex(&alpha), "column_size": size.to_string()});
         match got {
             Ok(g) if g == want => {}
             Ok(_) => rep.violation("C15|memory-ratio-mismatch", "get_public_memory_product_ratio differs from z^size / (prod (z-(a+alpha v)) * page prods * padding^(size-len))", replay),
             Err(p) => rep.violation("C15|memory-ratio-panic", &format!("panic {}:{} {}", p.file, p.line, p.msg), replay),
         }
         if rep.samples.len() < 2 {
-            rep.sample(json!({"public_memory": label, "cells": pi.main_page.len(), "column_size": size, "ratio": hex(&want)}));
+            rep.sample(json!({"public_memory": label, "cells": pi.main_page.len(), "column_size": size.to_string(), "ratio": hex(&want)}));
         }
     });
     total.merge(rep);
